@@ -396,6 +396,10 @@ pub fn exec(case: &J, acc: &mut Acc) -> Result<(), Fail> {
     match case["kind"].as_str() {
         Some("play") => exec_play(case, acc),
         Some("wrap") => exec_wrap(case, acc),
+        Some("surface") => crate::c13::exec(&case["chain"], acc).map_err(|mut f| {
+            f.case = case.clone();
+            f
+        }),
         _ => Err(Fail::harness("unknown C04 case kind")),
     }
 }
@@ -541,6 +545,26 @@ pub fn run(env: &Env) -> i32 {
         );
         rep.absorb(r);
     }
+    // leg 4: faults must SURFACE. Chain programs with planted faults (division by zero, bad divert
+    // variable, ->-> / ~ return out of place, missing END) under a reactive host that also jumps
+    // by path: every fault the story runs into must arrive as Err or handler callback (model
+    // shared with C13).
+    let n4 = env.cases(6000, 200000);
+    let r = run_cases(
+        env,
+        4,
+        n4,
+        || proptest::collection::vec(proptest::num::u16::ANY, 0..200),
+        |tape: &Vec<u16>, acc: &mut Acc| {
+            for chain in crate::c13::cases_from_tape(tape) {
+                let case = json!({"kind": "surface", "chain": chain});
+                exec(&case, acc)?;
+            }
+            Ok(())
+        },
+    );
+    rep.absorb(r);
+
     // the same legs under the release build (wrap-around must be identical in both profiles)
     if !env.child && cfg!(debug_assertions) {
         match run_child(env, "rel/release", &[]) {
